@@ -135,6 +135,7 @@ def generate(chk: Check) -> dict[str, Any]:
             cfg_mc(ds, as_, ml, True, extra, ["InvHistoryIndependent", "LawsInEveryState"]),
             workers=4,
             coverage=True,
+            heap="3g",
         )
     # the defective design (hooks for the top class only) must be refuted, otherwise the invariant is toothless
     tasks["mc_refute"] = lambda: run_tlc(
@@ -143,6 +144,7 @@ def generate(chk: Check) -> dict[str, Any]:
         cfg_mc("kw", "camel", 2, False, [], ["InvHistoryIndependent"]),
         workers=2,
         allow_violation=True,
+        heap="2g",
     )
     wraps = 3 if thorough else 2
     pl = ["int", "str", "datetime", "bool"] if thorough else ["int"]
@@ -151,10 +153,10 @@ def generate(chk: Check) -> dict[str, Any]:
     ]
     for i, (fam, ast, pst) in enumerate(gen_runs):
         tasks[f"gen{i}"] = lambda fam=fam, ast=ast, pst=pst, i=i: run_tlc(
-            sub_scratch(chk, f"gen{i}"), "Gen_Codec", cfg_gen(fam, wraps, pl, ast, pst), workers=2, timeout=1500
+            sub_scratch(chk, f"gen{i}"), "Gen_Codec", cfg_gen(fam, wraps, pl, ast, pst), workers=2, timeout=1500, heap="3g"
         )
     for i, gf in enumerate(graph_fams):
-        tasks[f"graphs{i}"] = lambda gf=gf, i=i: run_tlc(sub_scratch(chk, f"gr{i}"), "Gen_CodecGraphs", cfg_graphs(*gf), workers=4, timeout=1500)
+        tasks[f"graphs{i}"] = lambda gf=gf, i=i: run_tlc(sub_scratch(chk, f"gr{i}"), "Gen_CodecGraphs", cfg_graphs(*gf), workers=4, timeout=1500, heap="3g")
     res = in_parallel(tasks)
 
     out: dict[str, Any] = {"hist": [], "scen": [], "graphs": []}
@@ -288,7 +290,7 @@ def monitor(chk: Check, traces: list[dict], label: str, scratch: core.Scratch) -
     with tf.open("w") as f:
         for t in traces:
             f.write(json.dumps(t) + "\n")
-    r = run_tlc(scratch, "Trace_Codec", "SPECIFICATION Spec\nCHECK_DEADLOCK FALSE\n", workers=4, env={"TRACE_FILE": str(tf)}, coverage=True, timeout=1500)
+    r = run_tlc(scratch, "Trace_Codec", "SPECIFICATION Spec\nCHECK_DEADLOCK FALSE\n", workers=4, env={"TRACE_FILE": str(tf)}, coverage=True, timeout=1500, heap="4g")
     vs = r.printed.get("VERDICT", [])
     if len(vs) != len(traces):
         raise core.MachineryError(f"monitor[{label}] produced {len(vs)} verdicts for {len(traces)} traces")
